@@ -72,7 +72,8 @@ def gen_base(rng, tier, index):
             "parent_reads_before": rng.choice([0, 3, 10]), "seed": rng.randrange(1 << 20),
             "map_from_file": rng.random() < 0.5, "pace": rng.choice([0, 0, 0.0005]), "calls": [],
             "first_follows_parent": index % 2 == 0,
-            "thread_reads_during_fork": (index // 4) % 9 if index % 4 == 1 else None}
+            "thread_reads_during_fork": (index // 4) % 9 if index % 4 == 1 else None,
+            "iter_across_fork": rng.randrange(50) if index % 4 in (0, 3) else None}
 
 
 def findings(case, result, res):
